@@ -160,7 +160,7 @@ class Config:
 
 def _clone_cell(c):
     if isinstance(c, HList):
-        return HList(c.items)
+        return HList(c.items, c.oneshot)
     if isinstance(c, HDict):
         d = HDict(c.items, c.open, c.label)
         d.sym_items = list(c.sym_items)
@@ -373,7 +373,41 @@ class Interp:
                 q = f"{fi.parent_func}.{st.name}"
                 if q in self.index.functions and st.name not in env.vars:
                     env.vars[st.name] = Fn(q, env)
+        self._complete_closure(run, pf, env)
         return Fn(qualname, env)
+
+    def _complete_closure(self, run: Run, pf, env: Env):
+        """Free variables of the nested functions that the caller's closure table does not name (a local the enclosing
+        function introduces for them, e.g. an option dict built once before the closures are defined): bound by evaluating
+        the enclosing function's own single top-level assignment to that name, in body order.  Anything else stays unbound
+        and surfaces as NameError inside the closure."""
+        needed = set()
+        for st in pf.node.body:
+            if isinstance(st, (ast.FunctionDef, ast.AsyncFunctionDef)):
+                for n in ast.walk(st):
+                    if isinstance(n, ast.Name) and isinstance(n.ctx, ast.Load):
+                        needed.add(n.id)
+        menv = self.module_env(run, env.module)
+        missing = {n for n in needed if n not in env.vars and n not in menv.vars and not hasattr(_pybuiltins, n)}
+        if not missing:
+            return
+        binders: Dict[str, list] = {}
+        for st in pf.node.body:
+            if isinstance(st, (ast.FunctionDef, ast.AsyncFunctionDef, ast.ClassDef)):
+                continue
+            for n in ast.walk(st):
+                if isinstance(n, ast.Name) and isinstance(n.ctx, (ast.Store, ast.Del)) and n.id in missing:
+                    binders.setdefault(n.id, []).append(st)
+        for st in pf.node.body:
+            if not isinstance(st, (ast.Assign, ast.AnnAssign)) or (isinstance(st, ast.AnnAssign) and st.value is None):
+                continue
+            tgts = st.targets if isinstance(st, ast.Assign) else [st.target]
+            names = [t.id for t in tgts if isinstance(t, ast.Name)]
+            if len(names) != len(tgts) or not names or not all(n in missing and binders.get(n) == [st] for n in names):
+                continue
+            v = self.eval(run, st.value, env)
+            for n in names:
+                env.vars[n] = v
 
     # ================================================================ helpers
     def locof(self, node) -> str:
@@ -676,6 +710,15 @@ class Interp:
         if isinstance(t, ast.Name):
             cur = self.eval(run, ast.Name(t.id, ast.Load(), lineno=t.lineno, col_offset=t.col_offset), env)
             rhs = self.eval(run, st.value, env)
+            if isinstance(st.op, ast.Add) and isinstance(cur, Ref):
+                # += on a mutable sequence extends the object in place (every alias sees it)
+                c = run.cell(cur)
+                if isinstance(c, HObj) and c.cls == "builtins.bytearray":
+                    self.tf.bytearray_method(self, run, cur, "extend", [rhs], {}, st)
+                    return
+                if isinstance(c, HList) and not isinstance(self.resolve(run, rhs), (Sym, App)):
+                    c.items.extend(list(self.iterate(run, self.resolve(run, rhs), st)))
+                    return
             self.assign(run, t, self.binop(run, st.op, cur, rhs, st), env)
         elif isinstance(t, ast.Attribute):
             base = self.eval(run, t.value, env)
@@ -705,6 +748,23 @@ class Interp:
             base = self.eval(run, t.value, env)
             idx = self.eval_index(run, t.slice, env)
             self.store_subscript(run, base, idx, v, t)
+        elif isinstance(t, (ast.Tuple, ast.List)) and any(isinstance(e, ast.Starred) for e in t.elts):
+            # a, *rest, z = iterable  (closed sequences only)
+            if isinstance(v, Tup):
+                items = list(v.items)
+            elif isinstance(v, Ref) and isinstance(run.cell(v), HList):
+                items = list(run.cell(v).items)
+            else:
+                raise Unsupported(f"starred unpacking of a symbolic iterable at {self.locof(t)}")
+            si = next(i for i, e in enumerate(t.elts) if isinstance(e, ast.Starred))
+            after = len(t.elts) - si - 1
+            if len(items) < len(t.elts) - 1:
+                self.raise_builtin(run, "ValueError", t, C("unpack arity"))
+            for sub, item in zip(t.elts[:si], items[:si]):
+                self.assign(run, sub, item, env)
+            self.assign(run, t.elts[si].value, run.alloc(HList(items[si:len(items) - after])), env)
+            for sub, item in zip(t.elts[si + 1:], items[len(items) - after:] if after else []):
+                self.assign(run, sub, item, env)
         elif isinstance(t, (ast.Tuple, ast.List)):
             items = self.unpack(run, v, len(t.elts), t)
             for sub, item in zip(t.elts, items):
@@ -834,6 +894,10 @@ class Interp:
             return
         if isinstance(itv, Ref):
             c = run.cell(itv)
+            if isinstance(c, HList) and c.oneshot:
+                while c.items:  # an iterator: every element is handed out once, a second loop over it finds nothing
+                    yield c.items.pop(0)
+                return
             if isinstance(c, HList):
                 i = 0
                 while i < len(c.items):  # live view: appends during the loop are seen
@@ -1026,8 +1090,17 @@ class Interp:
         for t in st.targets:
             if isinstance(t, ast.Name):
                 env.vars.pop(t.id, None)
+            elif isinstance(t, ast.Subscript) and isinstance(t.slice, ast.Slice) and t.slice.lower is None and t.slice.upper is None and t.slice.step is None:
+                base = self.eval(run, t.value, env)
+                c = run.cell(base) if isinstance(base, Ref) else None
+                if isinstance(c, HObj) and c.cls == "builtins.bytearray":
+                    del run.cell(c.fields["@parts"]).items[:]
+                elif isinstance(c, HList):
+                    del c.items[:]
+                else:
+                    raise Unsupported(f"del target at {self.locof(st)}")
             else:
-                raise Unsupported("del target")
+                raise Unsupported(f"del target at {self.locof(st)}")
 
     # ================================================================ expressions
     def eval(self, run: Run, node, env: Env) -> Value:
@@ -1240,7 +1313,7 @@ class Interp:
         return run.alloc(HList(self._comp(run, node, env)))
 
     def ex_GeneratorExp(self, run, node, env):
-        return run.alloc(HList(self._comp(run, node, env)))
+        return run.alloc(HList(self._comp(run, node, env), oneshot=True))
 
     def ex_SetComp(self, run, node, env):
         return Tup(tuple(self._comp(run, node, env)))
@@ -1346,6 +1419,8 @@ class Interp:
     def getattr(self, run, base: Value, name: str, node) -> Value:
         if isinstance(base, Ref):
             c = run.cell(base)
+            if isinstance(c, HObj) and c.cls == "builtins.bytearray":
+                return App("attr", (base, C(name)))
             if isinstance(c, HObj):
                 if name in c.fields:
                     if name in self.cfg.record_loads:
@@ -1440,6 +1515,11 @@ class Interp:
         fi = self.index.func(fn.qualname)
         if len(run.stack) >= self.cfg.max_depth:
             raise CutoffSig(f"inlining depth {self.cfg.max_depth} at {fn.qualname}")
+        if fn.qualname in self.cfg.single_iteration and fn.qualname in run.stack:
+            # a function analysed one loop iteration at a time calls itself: the self-call *is* the next iteration
+            # (a loop written as recursion); recorded, so that a rule can object to the stack growth
+            run.effect(f"recursion:{fn.qualname}", (), node=node)
+            raise BackedgeSig()
         if run.stack.count(fn.qualname) >= 2:
             raise CutoffSig(f"recursion on {fn.qualname}")
         parent = fn.env if fn.env is not None else self.module_env(run, fi.module)
